@@ -173,13 +173,49 @@ def ep_family():
     return sorted(set(out))
 
 
+def ep_double_family():
+    """en-passant targets that can be captured from BOTH sides (and from one side, and from none), both colours, all files"""
+    out = []
+    for white in (True, False):
+        r5 = 4 if white else 3
+        r6 = 5 if white else 2
+        me, opp = ("P", "p") if white else ("p", "P")
+        myk, opk = ("K", "k") if white else ("k", "K")
+        for vf in range(8):
+            for left in (False, True):
+                for right in (False, True):
+                    if (left and vf == 0) or (right and vf == 7):
+                        continue
+                    for ks, eks in ((4, 60), (6, 62), (2, 58), (0, 63)):
+                        if not white:
+                            ks, eks = eks, ks
+                        cells = {r5 * 8 + vf: opp, ks: myk, eks: opk}
+                        if left:
+                            cells[r5 * 8 + vf - 1] = me
+                        if right:
+                            cells[r5 * 8 + vf + 1] = me
+                        rows = []
+                        for r in range(7, -1, -1):
+                            row, run = "", 0
+                            for f in range(8):
+                                c = cells.get(r * 8 + f)
+                                if c is None:
+                                    run += 1
+                                else:
+                                    row += (str(run) if run else "") + c
+                                    run = 0
+                            rows.append(row + (str(run) if run else ""))
+                        out.append("/".join(rows) + f" {'w' if white else 'b'} - {'abcdefgh'[vf]}{r6 + 1} 0 1")
+    return sorted(set(out))
+
+
 _EP_LEGAL = None
 
 
 def ep_family_legal():
     global _EP_LEGAL
     if _EP_LEGAL is None:
-        fam = ep_family()
+        fam = sorted(set(ep_family() + ep_double_family()))
         ans, _, _ = wee.run_driver(["legalpos " + f for f in fam], jobs=8)
         _EP_LEGAL = [f for f, (m, sp) in zip(fam, ans) if sp == "1"]
     return _EP_LEGAL
@@ -322,9 +358,15 @@ def c08(res, tier, seed, deep):
     lvl2 = expand_succ(rnd.sample(lvl1, min(len(lvl1), 60 if tier == "quick" else 400)))
     lvl3 = expand_succ(rnd.sample(lvl2, min(len(lvl2), 80 if tier == "quick" else 500)))
     fens += lvl1 + lvl2 + lvl3
+    # en-passant availability is part of the key: the systematic families (target capturable from both sides, one side,
+    # not at all; pins and discovered lines) — each with its "target dropped" variant below
+    epd = ep_double_family()
+    epl = ep_family_legal()
+    fens += epd + random.Random(seed + 4).sample(epl, min(len(epl), 3000 if tier == "thorough" else (1000 if deep else 300)))
+    res.tags["ep_double_family"] = len(epd)
     # one-component variants: counters (must not matter), rights subsets, ep target dropped, side swapped
     var = []
-    for f in rnd.sample(fens, min(len(fens), n)):
+    for f in epd + rnd.sample(fens, min(len(fens), n)):
         p = f.split(" ")
         var.append(" ".join(p[:4] + [str(rnd.randrange(100)), str(rnd.randrange(1, 300))]))
         var += rights_variants(f, rnd)
@@ -416,10 +458,21 @@ def kxk_positions(rnd, n):
     return out
 
 
+def vary_clocks(f, rnd):
+    """the same position with other move counters (what the rules of C05/C13 and the hash ignore): small, around the
+    fifty-move mark, huge"""
+    p = f.split(" ")
+    if len(p) != 6 or rnd.random() < 0.4:
+        return f
+    p[4] = str(rnd.choice([0, 1, 7, 49, 50, 51, 98, 99, 100, 101, 149, 150, 1000, 2 ** 32, 2 ** 64 - 1]))
+    p[5] = str(rnd.choice([1, 2, 30, 75, 76, 200, 5899, 2 ** 63]))
+    return " ".join(p)
+
+
 def c05(res, tier, seed, deep):
     n = 40000 if tier == "thorough" else (12000 if deep else 5000)
     rnd = random.Random(seed)
-    fens = positions(seed + 13, n) + kxk_positions(rnd, n * 2)
+    fens = [vary_clocks(f, rnd) for f in positions(seed + 13, n) + kxk_positions(rnd, n * 2)]
     reqs = []
     for f in fens:
         ply = rnd.choice([0, 1, 2, 3, 5, 9, 10, 11, 17, 40])
@@ -443,7 +496,7 @@ def c05(res, tier, seed, deep):
 def c13(res, tier, seed, deep):
     n = 25000 if tier == "thorough" else (8000 if deep else 3000)
     rnd = random.Random(seed)
-    fens = positions(seed + 15, n) + kxk_positions(rnd, n)
+    fens = [vary_clocks(f, rnd) for f in positions(seed + 15, n) + kxk_positions(rnd, n)]
     reqs = []
     for f in fens:
         ply = rnd.choice([0, 1, 4, 12])
